@@ -1104,6 +1104,48 @@ def linkfail_cases(jobs):
             fname = f"<vf:linkfail{job['id']}>"
             linecache.cache[fname] = (len(src), None, src.splitlines(True), fname)
             exec(compile(src, fname, "exec"), ns, ns)
+            if job.get("kind") == "child_first_invalid":
+                # C18: the offending method sits on a parent; the first function put to use is a (not linked) copy / variant.
+                # The failed build of the child must leave the parent repairable: once the offender is removed from the
+                # parent, both work according to their complete method sets.
+                from ovld import call_next
+
+                ns["call_next"] = call_next
+                src2 = "def bad(x: K4):\n    nxt = call_next\n    return nxt(x)\n"
+                fname2 = fname + "c"
+                linecache.cache[fname2] = (len(src2), None, src2.splitlines(True), fname2)
+                exec(compile(src2, fname2, "exec"), ns, ns)
+                P = Ovld()
+                P.register(ns["m1"])
+                P.register(ns["bad"])
+                C = P.copy() if job.get("how", "copy") == "copy" else P.variant(ns["own2"])
+                if job.get("how", "copy") == "copy":
+                    C.register(ns["own2"])
+
+                def probe(f, cls):
+                    del log[:]
+                    try:
+                        f(cls())
+                        kind = "run"
+                    except BaseException as e:  # noqa
+                        kind = classify(e)
+                        e.__traceback__ = None
+                    return {"kind": kind, "entered": list(log)}
+
+                first = {"child": C, "parent": P}[job["first"]]
+                rec = {"id": job["id"], "job": job, "first_call": probe(first, K3)}
+                try:
+                    P.unregister(ns["bad"])
+                    rec["removal"] = "ok"
+                except BaseException as e:  # noqa
+                    rec["removal"] = "error:" + describe(e)
+                    e.__traceback__ = None
+                rec["P"] = {"K3": probe(P, K3), "K4": probe(P, K4)}
+                rec["C"] = {"K3": probe(C, K3), "K2": probe(C, K2)}
+                for k in [k for k in linecache.cache if k.startswith("<ovld:") or k.startswith("<vf:")]:
+                    del linecache.cache[k]
+                out.append(rec)
+                continue
             P = Ovld()
             P.register(ns["m1"])
             kids = {}
